@@ -182,8 +182,10 @@ impl HalfConnection {
         self.rtt_ms = rtt_ms;
         self.rto_ms = rto_ms;
 
-        // Forget old frame data
-        self.frame_queue.forget_frames(now_ms.saturating_sub(rtt_ms*4), self.send_rate_comp.rtt_ms());
+        // Forget old frame data. A frame is kept for at least one RTO: with 4*RTT alone, acks that
+        // take longer than 4x the (initial or current) estimate refer to forgotten frames and are
+        // ignored, so a path slower than the estimate never produces feedback again.
+        self.frame_queue.forget_frames(now_ms.saturating_sub((rtt_ms*4).max(rto_ms)), self.send_rate_comp.rtt_ms());
 
         // Fill flush allocation
         self.fill_flush_alloc(now);
